@@ -615,7 +615,15 @@ def _f_list(value):
     return list(value)
 
 
-R_FILTERS = {"default": _f_default, "d": _f_default, "length": _f_length, "upper": _f_upper, "first": _f_first,
+def _f_attr(obj, name):
+    """foo|attr("bar"): the attribute only, never the item (docs)."""
+    try:
+        return getattr(obj, name)
+    except AttributeError:
+        return RUndefined(name)
+
+
+R_FILTERS = {"attr": _f_attr, "default": _f_default, "d": _f_default, "length": _f_length, "upper": _f_upper, "first": _f_first,
              "join": _f_join, "abs": _f_abs, "int": _f_int, "list": _f_list}
 
 _SMALL_INT = range(-5, 257)
@@ -643,6 +651,8 @@ R_TESTS = {
     "divisibleby": lambda v, num: v % num == 0,
     "eq": lambda a, b: a == b,
     "true": lambda v: v is True,
+    "callable": lambda v: callable(v),
+    "mapping": lambda v: isinstance(v, dict),
     "string": lambda v: isinstance(v, str),
 }
 
